@@ -4,7 +4,7 @@
 set -u
 ID=$1; shift
 CHECKS=${*:-$ID}
-W=/tmp/seed/$ID
+W=${SEED_BASE:-/tmp/seed}/$ID
 S=$W/SEED
 export CARGO_TARGET_DIR=$W/target CARGO_NET_OFFLINE=true
 cd $W || exit 2
@@ -19,12 +19,12 @@ echo "== suite with change"
 SUITE=$(cargo test --offline 2>&1 | grep -E "^test result" | tr '\n' ' ')
 echo "$SUITE"
 echo "== demo with change"
-(sh $S/demo/run.sh >/tmp/seed/$ID.with.log 2>&1); WITH=$?
+(sh $S/demo/run.sh >$W.with.log 2>&1); WITH=$?
 echo "exit $WITH"
 # (git stash is shared by all worktrees of a repository: never use it here)
 git -C $W apply -R $S/patch.diff
 echo "== demo without change"
-(sh $S/demo/run.sh >/tmp/seed/$ID.without.log 2>&1); WITHOUT=$?
+(sh $S/demo/run.sh >$W.without.log 2>&1); WITHOUT=$?
 echo "exit $WITHOUT"
 git -C $W apply $S/patch.diff
 echo "== our checks with the patch applied to /repo"
